@@ -245,14 +245,23 @@ def thorough_selfcheck(chk: Check) -> None:
         print(f"SELFTEST-WARN property={chk.pid} variant not reported: {n}")
 
 
-def run_check(pid: str, tier: str, body) -> int:
-    """Run `body(check)`; convert every analyser failure into exit 2, never into a verdict."""
+def run_check(pid: str, tier: str, body, replay: dict | None = None) -> int:
+    """Run `body(check)`; convert every analyser failure into exit 2, never into a verdict.
+    With `replay` (a stored violation record) the exit status answers for that instance only."""
     chk = Check(pid, tier)
     try:
         body(chk)
         if tier == "thorough":
             thorough_selfcheck(chk)
-        return chk.conclude()
+        rc = chk.conclude()
+        if replay is not None:
+            same = [v for v in chk.violations if v.get("rule") == replay.get("rule") and v.get("key") == replay.get("key")]
+            if same:
+                print(f"REPLAY: {replay.get('rule')} `{replay.get('key')}` is still violated at {same[0].get('where')}")
+                return 1
+            print(f"REPLAY: {replay.get('rule')} `{replay.get('key')}` is not violated on the current tree" + (f" ({len(chk.violations)} other violation(s) reported above)" if chk.violations else ""))
+            return 0
+        return rc
     except AnalysisError as e:
         print(f"ANALYSIS-ERROR property={pid}: {e}")
         chk.write_evidence("analysis-error", str(e))
